@@ -115,6 +115,36 @@ def run(ctx, config='rel-all'):
             else:
                 ctx.violation('R1', fn, 'callback:unguarded', 'the initialiser may run although %s failed to reserve space' % arena.short(e.callee), uc.span)
     ctx.floor('R1', n1, 3, 'initialiser call sites')
+    # ---- R7 (requirement side, every initialising method): in each public `alloc*` / `try_alloc*` method of Bump no user-supplied
+    # initialiser code - the closure, the caller's iterator (`next`), `Clone::clone`, `Default::default` - runs before the space was
+    # reserved.  (`IntoIterator::into_iter` and `ExactSizeIterator::len` determine *how much* to reserve and necessarily come first.)
+    INIT_CALLS = ('core::iter::traits::iterator::Iterator::next', 'core::iter::traits::double_ended::DoubleEndedIterator::next_back',
+                  'core::ops::function::FnMut::call_mut', 'core::ops::function::FnOnce::call_once', 'core::ops::function::Fn::call',
+                  'core::clone::Clone::clone', 'core::default::Default::default')
+    n7 = 0
+    for b in db.fn_bodies():
+        m = b['meta']
+        if b['kind'] != 'assoc_fn' or m.get('impl_adt') != 'Bump' or m.get('impl_trait') or not m.get('pub'):
+            continue
+        nm = m.get('name') or ''
+        if not (nm.startswith('alloc') or nm.startswith('try_alloc')) or nm in ('alloc_layout', 'try_alloc_layout', 'allocated_bytes', 'allocated_bytes_including_metadata', 'allocation_limit'):
+            continue
+        if not any(g.startswith('ty:') for g in (m.get('generics') or [])):
+            continue
+        J, r = arena.run_fn(ctx, b['id'], config)
+        res_idx = [i for i, e in enumerate(r.events) if e.kind == 'call' and (e.callee or '').split('::')[-1] in ('try_alloc_layout', 'alloc_layout', 'try_alloc_layout_fast') and 'Bump' in (e.callee or '')]
+        inits = [(i, e) for i, e in enumerate(r.events) if e.kind == 'usercall' or (e.kind == 'call' and (e.extra.get('raw_callee') or e.callee) in INIT_CALLS and (e.callee in INIT_CALLS))]
+        if not inits:
+            continue
+        n7 += 1
+        first = min(res_idx) if res_idx else None
+        early = [e for i, e in inits if first is None or i < first]
+        if early:
+            e = early[0]
+            ctx.violation('R7', 'Bump::' + nm, 'initialiser-before-reservation:%s' % (e.callee or 'callback').split('::')[-1], 'Bump::%s runs user-supplied initialiser code (%s) before it has reserved the space: if the reservation then fails an item has been consumed / a side effect has happened for nothing' % (nm, e.callee or 'the callback'), e.span)
+        else:
+            ctx.ok('R7', 'Bump::%s: every initialiser call follows the reservation' % nm, '%d initialiser call sites after event #%s' % (len(inits), first))
+    ctx.floor('R7', n7, 12, 'initialising methods of Bump')
     # ---- R2..R4 for the two single-value entries
     for key in ('alloc_try_with', 'try_alloc_try_with'):
         val = A.get(key)
